@@ -442,6 +442,136 @@ func tieTolerantEqual(a, b []diagSnap) bool {
 	return true
 }
 
+// c35Step applies one edit (already reflected in files) to the long-lived
+// environment, evicts the touched paths, re-runs and compares with a fresh
+// environment. It returns false when a violation was reported.
+func c35Step(r *vlib.Run, id string, env *expEnv, par int, files map[string]string, targets, touched []string, name string, step int, history []map[string]any, deleted []string) bool {
+	ctx := context.Background()
+	if step > 0 {
+		for _, p := range touched {
+			if t, ok := files[p]; ok {
+				env.Map.Add(p, t)
+			} else {
+				delete(env.Map.Get(), p)
+			}
+		}
+		keys := make([]any, 0, 2*len(touched))
+		for _, p := range touched {
+			keys = append(keys, queries.File{Opener: env.Opener, Path: p, ReportError: false},
+				queries.File{Opener: env.Opener, Path: p, ReportError: true})
+		}
+		env.Exec.Evict(keys...)
+	}
+	inc := c35Observe(env.runLink(ctx, targets), targets)
+	batch := c35Observe(newExpEnv(files, par).runLink(ctx, targets), targets)
+	what, detail := c35Compare(inc, batch, targets)
+	if what == "tie-order" {
+		r.Class("order-among-sort-key-ties-differs (not decided here; see C36)")
+		what = ""
+	}
+	if what != "" {
+		// Is the incremental result one a brand-new executor can give? Batch
+		// runs are not deterministic on this tree (C36); a mismatch counts
+		// only if no fresh run at the same parallelism reproduces it.
+		for k := 0; k < 200 && what != ""; k++ {
+			again := c35Observe(newExpEnv(files, par).runLink(ctx, targets), targets)
+			if w2, _ := c35Compare(inc, again, targets); w2 == "" || w2 == "tie-order" {
+				r.Class("mismatch-reproduced-by-another-fresh-run (batch nondeterminism; see C36)")
+				what = ""
+			}
+		}
+	}
+	key := ""
+	if len(touched) > 0 {
+		w := &workspace{Files: files, Targets: targets}
+		key = fmt.Sprintf("%s\x00%d\x00%s", w.contentKey(), step, name)
+	}
+	r.Eval(key)
+	r.Class("edit:" + name)
+	if what == "" {
+		return true
+	}
+	fc := map[string]string{}
+	for p, t := range files {
+		fc[p] = t
+	}
+	wit := map[string]any{"history": history, "failing_step": step, "edit": name, "touched": touched,
+		"files_after_edit": fc, "targets": targets, "deleted": deleted, "parallelism": par, "fresh_runs_tried": 201}
+	for k, v := range detail {
+		wit[k] = v
+	}
+	r.Violation("incremental.differs-from-batch", "after "+editKind(name)+": "+what, id, wit)
+	return false
+}
+
+// Handwritten histories: each step is the complete file set.
+type c35FixedHistory struct {
+	Name    string
+	Targets []string
+	Steps   []map[string]string
+}
+
+const (
+	c35Hdr = "syntax = \"proto3\";\npackage pkgduplicates;\n"
+)
+
+var c35Fixed = []c35FixedHistory{
+	{
+		// A name first seen in a LATER step is interned after the names of
+		// earlier steps in the long-lived session, whereas a fresh session
+		// interns in declaration order.
+		Name:    "new-duplicate-declared-before-an-older-nested-duplicate",
+		Targets: []string{"a.proto", "b.proto"},
+		Steps: []map[string]string{
+			{"a.proto": c35Hdr + "message BravoMessage {}\n", "b.proto": c35Hdr + "message BravoMessage { message NestedMessage {} }\n"},
+			{"a.proto": c35Hdr + "message AlphaMessage {}\nmessage BravoMessage {}\n", "b.proto": c35Hdr + "message AlphaMessage {}\nmessage BravoMessage { message NestedMessage {} }\n"},
+		},
+	},
+	{
+		Name:    "type-change-seen-by-importer-then-reverted",
+		Targets: []string{"use.proto", "def.proto"},
+		Steps: []map[string]string{
+			{"def.proto": "syntax = \"proto3\";\npackage fixedhist;\nmessage Payload { int32 a = 1; }\n", "use.proto": "syntax = \"proto3\";\npackage fixedhist;\nimport \"def.proto\";\nmessage User { Payload p = 1; }\n"},
+			{"def.proto": "syntax = \"proto3\";\npackage fixedhist;\nenum Payload { PAYLOAD_ZERO = 0; }\n", "use.proto": "syntax = \"proto3\";\npackage fixedhist;\nimport \"def.proto\";\nmessage User { Payload p = 1; }\n"},
+			{"use.proto": "syntax = \"proto3\";\npackage fixedhist;\nimport \"def.proto\";\nmessage User { Payload p = 1; }\n"},
+			{"def.proto": "syntax = \"proto3\";\npackage fixedhist;\nmessage Payload { int32 a = 1; }\n", "use.proto": "syntax = \"proto3\";\npackage fixedhist;\nimport \"def.proto\";\nmessage User { Payload p = 1; }\n"},
+		},
+	},
+}
+
+func runC35Fixed(r *vlib.Run, h c35FixedHistory) {
+	id := "fixed/" + h.Name
+	for _, par := range []int{1, 4} {
+		env := newExpEnv(h.Steps[0], par)
+		var history []map[string]any
+		prev := h.Steps[0]
+		for step, files := range h.Steps {
+			touched := map[string]bool{}
+			if step > 0 {
+				for p, t := range files {
+					if o, ok := prev[p]; !ok || o != t {
+						touched[p] = true
+					}
+				}
+				for p := range prev {
+					if _, ok := files[p]; !ok {
+						touched[p] = true
+					}
+				}
+			}
+			name := "fixed-step"
+			if step == 0 {
+				name = "initial-compile"
+			}
+			history = append(history, map[string]any{"step": step, "edit": name, "touched": sortedKeys(touched), "files": files})
+			if !c35Step(r, id, env, par, files, h.Targets, sortedKeys(touched), name, step, history, nil) {
+				return
+			}
+			prev = files
+		}
+	}
+}
+
 func TestC35(t *testing.T) {
 	r := vlib.Start(t, "C35")
 	defer r.Finish()
@@ -451,9 +581,12 @@ func TestC35(t *testing.T) {
 		"fresh (batch) runs are NOT deterministic on this tree (C36 decides that): an order difference confined to groups of diagnostics that tie on Canonicalize's observable sort keys is not a mismatch, and any other mismatch is reported only if none of 200 further fresh executors at the same parallelism reproduces the incremental result (counted in classes 'mismatch-reproduced-by-another-fresh-run')",
 		"the Workspace object of queries.Link is reused across steps (its key is compared by identity), as a long-lived client would",
 	})
-	ctx := context.Background()
+	for i, h := range c35Fixed {
+		if r.Want("fixed/"+h.Name) && r.Mine(i) {
+			runC35Fixed(r, h)
+		}
+	}
 	n := r.N(160, 6000)
-	editCount := map[string]int64{}
 	r.Par(n, func(i int) {
 		id := fmt.Sprintf("hist/%d", i)
 		if !r.Want(id) {
@@ -489,61 +622,9 @@ func TestC35(t *testing.T) {
 					name = "rerun-without-edit"
 				}
 				touched = st.sync()
-				for _, p := range touched {
-					if t, ok := st.files[p]; ok {
-						env.Map.Add(p, t)
-					} else {
-						delete(env.Map.Get(), p)
-					}
-				}
-				keys := make([]any, 0, 2*len(touched))
-				for _, p := range touched {
-					keys = append(keys, queries.File{Opener: env.Opener, Path: p, ReportError: false},
-						queries.File{Opener: env.Opener, Path: p, ReportError: true})
-				}
-				env.Exec.Evict(keys...)
 			}
 			history = append(history, map[string]any{"step": step, "edit": name, "touched": touched})
-			inc := c35Observe(env.runLink(ctx, st.targets), st.targets)
-			fresh := newExpEnv(st.files, par)
-			batch := c35Observe(fresh.runLink(ctx, st.targets), st.targets)
-			what, detail := c35Compare(inc, batch, st.targets)
-			if what == "tie-order" {
-				r.Class("order-among-sort-key-ties-differs (not decided here; see C36)")
-				what = ""
-			}
-			if what != "" {
-				// Is the incremental result one a brand-new executor can give? Batch
-				// runs are not deterministic on this tree (C36); a mismatch counts
-				// only if no fresh run at the same parallelism reproduces it.
-				for k := 0; k < 200 && what != ""; k++ {
-					again := c35Observe(newExpEnv(st.files, par).runLink(ctx, st.targets), st.targets)
-					if w2, _ := c35Compare(inc, again, st.targets); w2 == "" || w2 == "tie-order" {
-						r.Class("mismatch-reproduced-by-another-fresh-run (batch nondeterminism; see C36)")
-						what = ""
-					}
-				}
-			}
-			key := ""
-			if len(touched) > 0 && (len(batch.Snaps) > 0 || len(batch.Descs) > 0) {
-				w := &workspace{Files: st.files, Targets: st.targets}
-				key = fmt.Sprintf("%s\x00%d\x00%s", w.contentKey(), step, name)
-			}
-			r.Eval(key)
-			r.Class("edit:" + name)
-			_ = editCount
-			if what != "" {
-				files := map[string]string{}
-				for p, t := range st.files {
-					files[p] = t
-				}
-				wit := map[string]any{"history": history, "failing_step": step, "edit": name, "touched": touched,
-					"files_after_edit": files, "targets": st.targets, "deleted": sortedKeys(st.deleted), "parallelism": par}
-				for k, v := range detail {
-					wit[k] = v
-				}
-				wit["fresh_runs_tried"] = 201
-				r.Violation("incremental.differs-from-batch", "after "+editKind(name)+": "+what, id, wit)
+			if !c35Step(r, id, env, par, st.files, st.targets, touched, name, step, history, sortedKeys(st.deleted)) {
 				return // the long-lived state is off; later steps would repeat the finding
 			}
 		}
